@@ -236,6 +236,9 @@ def step (c : Ctx) (line : String) : Ctx × Array String :=
         ({ c with run := some { r with hq := r.hq ++ ((args.getD 0 "").splitOn ",").map parseAns } }, #[])
       else if op == "vq" then
         ({ c with run := some { r with vq := r.vq ++ ((args.getD 0 "").splitOn ",").map parseAns } }, #[])
+      else if op == "refval" then
+        -- the value a refusing io->write returns: any value but 1 is a refusal, the model only knows "refused"
+        (c, #[])
       else
         let r := { r with opno := r.opno + 1 }
         let name := toString r.opno
